@@ -28,6 +28,8 @@ def handle : List String → List String → Option String
     else match image L.leaves vs with
       | none => some "unspecified"   -- some value is outside its domain: C18 is silent (C04 covers the shipped layouts)
       | some img => some (Driver.expect ("ok " ++ showHex img) impl)
+  | "unmarshal" :: _, ["changed-an-earlier-decoded-value"] =>
+    some "bad decoding into a variable that was decoded into before must not change a copy kept of the earlier value (every decoded value is the decoding of its own message)"
   | "unmarshal" :: r, impl => do
     let (L, rest) ← layoutOf r
     let [h] := rest | none
